@@ -316,6 +316,7 @@ func (p *Program) runPathWith(job Job, solver *smt.Solver, trail []Decision, wan
 	if pb := job.Cfg.Params["preempt"]; pb > 0 {
 		m.preemptMode = true
 		m.preemptLeft = int(pb)
+		m.nextChoice = job.Cfg.Params["nextchoice"] > 0
 	}
 	m.cfg.Trace = job.Trace
 	mainG := &goroutine{id: 0, wake: make(chan struct{}, 1), what: "main"}
